@@ -1600,3 +1600,158 @@ Qed.
    version: AmgProofs9.v on the expanded matrix).  On the implementation the full statement is CHECKED exactly
    (tools/props/c02_block.py, oracle:block-symmetry: the dense B assembled from unit vectors equals its transpose) for
    all five smoothers and all cycle parameters with npre = npost. *)
+
+(* ================================================================== *)
+(* A3 for block values, second part (UPDATE of the FULL STATEMENT comment above: its items (a) for Gauss-Seidel and (b)
+   are proved here).  AmgBlockCycleSym2.v: the method of consistent / dual stationary iterations over a non-commutative
+   ring with an involutive anti-automorphism (form ipH; nothing is commuted): compositions of adjoint pairs, k pre- and
+   k post-sweeps, the coarse-grid correction, ncycle repetitions of the level body (W-cycles), pre_cycles repetitions of
+   the cycle.  AmgBlockCycleSym2Gs.v: forward / backward Gauss-Seidel are consistent and mutually adjoint for a hermitian
+   block matrix whose stored diagonal blocks are the dense diagonal and invertible on both sides (inverse on the LEFT, as
+   gauss_seidel.hpp computes it).  AmgBlockCycleSym2Built.v: hierarchies built by amg_init. *)
+From Amgcl Require Import AmgBlockCycleSym2 AmgBlockCycleSym2Gs AmgBlockCycleSym2Built.
+
+(* forward (apply_pre) and backward (apply_post) Gauss-Seidel over non-commuting values: both consistent
+   (x' = x + N (f - A x)) and adjoint to each other, <N_fwd f, g> = <f, N_bwd g> *)
+Theorem C02_gs_forward_backward_adjoint_blocks {S : Scalar} (Hnc : ncring_theory S)
+  (adj_add : forall a b : S, sadj (a + b) = sadj a + sadj b)
+  (adj_mul : forall a b : S, sadj (a * b) = sadj b * sadj a)
+  (adj_inv : forall a : S, sadj (sadj a) = a) (A : crs S) :
+  wf A = true -> herm_mat (nrows A) A -> gs_diag_okH A ->
+  sweep_consH (nrows A) A (fst (mk_relax_std RGS A)) /\
+  sweep_consH (nrows A) A (snd (mk_relax_std RGS A)) /\
+  sweep_adjH (nrows A) (fst (mk_relax_std RGS A)) (snd (mk_relax_std RGS A)).
+Proof. exact (gs_herm_ok Hnc adj_add adj_mul adj_inv A). Qed.
+Print Assumptions C02_gs_forward_backward_adjoint_blocks.
+
+(* any hierarchy (not only those of amg_init): hermitian level matrices, R_l = adjoint P_l, self-adjoint coarse solve,
+   consistent pre- and post-smoothers that are adjoint to each other: apply with npre = npost = k, ncycle = nc,
+   pre_cycles = pc + 1 is hermitian (pre_cycles > 1 unless the hierarchy is one level with the direct solver) *)
+Theorem C02_apply_symmetric_nc_full {S : Scalar} (Hnc : ncring_theory S) (Seqb : seqb_spec S)
+  (adj_add : forall a b : S, sadj (a + b) = sadj a + sadj b)
+  (adj_mul : forall a b : S, sadj (a * b) = sadj b * sadj a)
+  (adj_inv : forall a : S, sadj (sadj a) = a) k nc pc (lvls : list (@level S)) :
+  hier_herm lvls -> hier_hermk lvls -> lvls <> [] -> (pc = 0 \/ nosolve_top lvls) ->
+  forall scr1 scr2 f g x1 x2,
+  scratch_wf lvls scr1 -> scratch_wf lvls scr2 ->
+  length f = top_n lvls -> length g = top_n lvls -> length x1 = top_n lvls -> length x2 = top_n lvls ->
+  ipH (top_n lvls) (fst (apply k k nc (Datatypes.S pc) lvls scr1 f x1)) g =
+  ipH (top_n lvls) f (fst (apply k k nc (Datatypes.S pc) lvls scr2 g x2)).
+Proof. exact (apply_herm_full Hnc Seqb adj_add adj_mul adj_inv k nc pc lvls). Qed.
+Print Assumptions C02_apply_symmetric_nc_full.
+
+(* block-valued hierarchies built by amg_init, ANY of the five smoothers with the side condition good5 on every level:
+   damped Jacobi / SPAI-0: diag_good; Gauss-Seidel: gs_diag_okH; ILU(0) / Chebyshev: consistency and self-adjointness of
+   the sweep on the level matrix (hypothesis, see below) *)
+Theorem C02_apply_symmetric_blocks_full (S0 : Scalar) (b : nat) (Srt : Sring S0) (Seqb0 : seqb_spec S0) (Hb : 0 < b)
+  (sadj_add0 : forall x y : S0, sadj (x + y) = sadj x + sadj y)
+  (sadj_mul0 : forall x y : S0, sadj (x * y) = sadj x * sadj y)
+  (sadj_invol0 : forall x : S0, sadj (sadj x) = x)
+  (k5 : @relax5 (BlockS S0 b)) ce dc ml (sc : option (BlockS S0 b)) ts (M : crs (BlockS S0 b)) k nc pc :
+  scale_herm sc -> wf M = true -> herm_mat (nrows M) M -> ts_herm (nrows M) ts ->
+  (forall A, In (LSolve A) (amg_init ce dc ml (coarse_op_of sc) ts M) ->
+             solve_symH (nrows A) (mk_solve_block S0 b A)) ->
+  (forall l, In l (amg_init ce dc ml (coarse_op_of sc) ts M) -> good5 k5 (ld_A l)) ->
+  let lvls := block_levels S0 b k5 (amg_init ce dc ml (coarse_op_of sc) ts M) in
+  (pc = 0 \/ nosolve_top lvls) ->
+  forall scr1 scr2 f g x1 x2,
+  scratch_wf lvls scr1 -> scratch_wf lvls scr2 ->
+  length f = nrows M -> length g = nrows M -> length x1 = nrows M -> length x2 = nrows M ->
+  ipH (S := BlockS S0 b) (nrows M) (fst (apply k k nc (Datatypes.S pc) lvls scr1 f x1)) g =
+  ipH (S := BlockS S0 b) (nrows M) f (fst (apply k k nc (Datatypes.S pc) lvls scr2 g x2)).
+Proof.
+  exact (block_apply_herm_full S0 b Srt Seqb0 Hb sadj_add0 sadj_mul0 sadj_invol0 k5 ce dc ml sc ts M k nc pc).
+Qed.
+Print Assumptions C02_apply_symmetric_blocks_full.
+
+(* Gauss-Seidel (forward pre, backward post), smoother on the coarsest level: no hypothesis on a coarse solver is left *)
+Theorem C02_apply_symmetric_blocks_gs (S0 : Scalar) (b : nat) (Srt : Sring S0) (Seqb0 : seqb_spec S0) (Hb : 0 < b)
+  (sadj_add0 : forall x y : S0, sadj (x + y) = sadj x + sadj y)
+  (sadj_mul0 : forall x y : S0, sadj (x * y) = sadj x * sadj y)
+  (sadj_invol0 : forall x : S0, sadj (sadj x) = x)
+  ce ml (sc : option (BlockS S0 b)) ts (M : crs (BlockS S0 b)) k nc pc :
+  scale_herm sc -> wf M = true -> herm_mat (nrows M) M -> ts_herm (nrows M) ts ->
+  (forall l, In l (amg_init ce false ml (coarse_op_of sc) ts M) -> gs_diag_okH (ld_A l)) ->
+  let lvls := block_levels S0 b (R5Std RGS) (amg_init ce false ml (coarse_op_of sc) ts M) in
+  forall scr1 scr2 f g x1 x2,
+  scratch_wf lvls scr1 -> scratch_wf lvls scr2 ->
+  length f = nrows M -> length g = nrows M -> length x1 = nrows M -> length x2 = nrows M ->
+  ipH (S := BlockS S0 b) (nrows M) (fst (apply k k nc (Datatypes.S pc) lvls scr1 f x1)) g =
+  ipH (S := BlockS S0 b) (nrows M) f (fst (apply k k nc (Datatypes.S pc) lvls scr2 g x2)).
+Proof.
+  exact (block_apply_herm_full_smoother_coarse S0 b Srt Seqb0 Hb sadj_add0 sadj_mul0 sadj_invol0 (R5Std RGS)
+           ce ml sc ts M k nc pc).
+Qed.
+Print Assumptions C02_apply_symmetric_blocks_gs.
+
+(* closed at static_matrix<Q,b,b> (trivial conjugation on Q): any smoother kind, smoother on the coarsest level *)
+Theorem C02_apply_symmetric_blocks_full_Qc (b : nat) (Hb : 0 < b)
+  (k5 : @relax5 (BlockS QcS b)) ce ml (sc : option (BlockS QcS b)) ts (M : crs (BlockS QcS b)) k nc pc :
+  scale_herm sc -> wf M = true -> herm_mat (nrows M) M -> ts_herm (nrows M) ts ->
+  (forall l, In l (amg_init ce false ml (coarse_op_of sc) ts M) -> good5 k5 (ld_A l)) ->
+  let lvls := block_levels QcS b k5 (amg_init ce false ml (coarse_op_of sc) ts M) in
+  forall scr1 scr2 f g x1 x2,
+  scratch_wf lvls scr1 -> scratch_wf lvls scr2 ->
+  length f = nrows M -> length g = nrows M -> length x1 = nrows M -> length x2 = nrows M ->
+  ipH (S := BlockS QcS b) (nrows M) (fst (apply k k nc (Datatypes.S pc) lvls scr1 f x1)) g =
+  ipH (S := BlockS QcS b) (nrows M) f (fst (apply k k nc (Datatypes.S pc) lvls scr2 g x2)).
+Proof.
+  exact (block_apply_herm_full_smoother_coarse QcS b QcS_ring QcS_eqb Hb (fun _ _ => eq_refl) (fun _ _ => eq_refl)
+           (fun _ => eq_refl) k5 ce ml sc ts M k nc pc).
+Qed.
+Print Assumptions C02_apply_symmetric_blocks_full_Qc.
+
+Theorem C02_apply_symmetric_blocks_gs_Qc (b : nat) (Hb : 0 < b)
+  ce ml (sc : option (BlockS QcS b)) ts (M : crs (BlockS QcS b)) k nc pc :
+  scale_herm sc -> wf M = true -> herm_mat (nrows M) M -> ts_herm (nrows M) ts ->
+  (forall l, In l (amg_init ce false ml (coarse_op_of sc) ts M) -> gs_diag_okH (ld_A l)) ->
+  let lvls := block_levels QcS b (R5Std RGS) (amg_init ce false ml (coarse_op_of sc) ts M) in
+  forall scr1 scr2 f g x1 x2,
+  scratch_wf lvls scr1 -> scratch_wf lvls scr2 ->
+  length f = nrows M -> length g = nrows M -> length x1 = nrows M -> length x2 = nrows M ->
+  ipH (S := BlockS QcS b) (nrows M) (fst (apply k k nc (Datatypes.S pc) lvls scr1 f x1)) g =
+  ipH (S := BlockS QcS b) (nrows M) f (fst (apply k k nc (Datatypes.S pc) lvls scr2 g x2)).
+Proof.
+  exact (block_apply_herm_full_smoother_coarse QcS b QcS_ring QcS_eqb Hb (fun _ _ => eq_refl) (fun _ _ => eq_refl)
+           (fun _ => eq_refl) (R5Std RGS) ce ml sc ts M k nc pc).
+Qed.
+Print Assumptions C02_apply_symmetric_blocks_gs_Qc.
+
+(* non-vacuity: the hypotheses of the Gauss-Seidel statement hold on the concrete hierarchy of AmgBlockCycleExample.v
+   (non-commuting 2 x 2 blocks, over_interp = 2, smoother on the coarse level), and the identity for a W(2,2)-cycle
+   applied twice (npre = npost = 2, ncycle = 2, pre_cycles = 2), evaluated inside Coq *)
+Example C02_example_blocks_gs_symmetric_hypotheses :
+  scale_herm (S := B2) (Some exBhalf) /\ wf exBM = true /\ herm_mat (S := B2) (nrows exBM) exBM /\
+  ts_herm (S := B2) (nrows exBM) exBTs /\
+  (forall l, In l exBH' -> good5 (R5Std (S := B2) (RGS (S := B2))) (ld_A l)) /\ length exBH' = 2 /\
+  seqb (s := B2)
+    (ipH (S := B2) 3 (fst (apply 2 2 2 2 (block_levels QcS 2 (R5Std (S := B2) (RGS (S := B2))) exBH')
+                             (map (@fresh_scratch B2) exBH') exBF exBZ)) exBG)
+    (ipH (S := B2) 3 exBF (fst (apply 2 2 2 2 (block_levels QcS 2 (R5Std (S := B2) (RGS (S := B2))) exBH')
+                                  (map (@fresh_scratch B2) exBH') exBG exBZ)))
+    = true.
+Proof.
+  split; [apply (scale_herm_embed QcS 2 QcS_ring); reflexivity|].
+  split; [vm_compute; reflexivity|].
+  split; [apply (herm_matb_ok (BlockS_eqb QcS 2 QcS_eqb)); vm_compute; reflexivity|].
+  split; [apply (ts_hermb_ok (BlockS_eqb QcS 2 QcS_eqb)); vm_compute; reflexivity|].
+  split; [apply (levels_gs_okb_ok (BlockS_eqb QcS 2 QcS_eqb)); vm_compute; reflexivity|].
+  split; vm_compute; reflexivity.
+Qed.
+
+(* FULL STATEMENT (unproved part), as it stands now.  Same statement as in the comment above.
+   PROVED: every k = npre = npost >= 0, every ncycle, every pre_cycles >= 1 (pre_cycles > 1 needs a hierarchy that is
+   not a single direct-solver level), smoothers damped_jacobi, spai0 (diag_good) and gauss_seidel (gs_diag_okH:
+   stored diagonal block = dense diagonal block, invertible on both sides), for hierarchies of amg_init
+   (C02_apply_symmetric_blocks_full / _gs / _Qc) and for any hierarchy satisfying hier_herm / hier_hermk
+   (C02_apply_symmetric_nc_full).
+   NOT proved: (a') for ilu0 and chebyshev the three facts  sweep_consH pre, sweep_consH post, sweep_adjH pre post  on every
+   level matrix are the HYPOTHESIS good5 (R5Ilu0 w) A / good5 (R5Cheby ..) A = sweep_triple A (mk_relax5 k A).
+   What would discharge it for the model: ilu_sweep is x + w N (f - A x) with N = (D^-1 + U)^-1 (I + L)^-1 (right-linear:
+   AmgBlockCycleLin.v), so consistency is its additivity; self-adjointness needs, for a hermitian block matrix with
+   symmetric pattern, the factor relation U = D^-1 L^H and D^H = D of the IKJ elimination of Ilu.ilu0 over a
+   non-commutative ring (so that (I + L)(D^-1 + U) = (I + L) D^-1 (I + L)^H) and w central hermitian -- not formalised;
+   Chebyshev: p(A) M with M the hermitian scaled diagonal is self-adjoint in the M^-1-weighted sense only when the
+   scaling commutes with A, for scale = false it is a polynomial in the hermitian A (coefficients embedded reals).
+   (c) solve_symH for mk_solve_block stays a hypothesis when direct_coarse = true.
+   On the implementation the full statement is CHECKED exactly for all five smoothers (tools/props/c02_block.py). *)
